@@ -60,6 +60,20 @@ func area(r []Point, i int, p Polygon, bounds []*Bounds) float64 {
 		return -A // This is a hole
 	}
 
+	// All of the vertices of this ring lie on other rings (rings that touch
+	// each other in single points). The middle of an edge decides then.
+	for ii := range r {
+		jj := (ii + 1) % len(r)
+		m := Point{X: r[ii].X/2 + r[jj].X/2, Y: r[ii].Y/2 + r[jj].Y/2}
+		in := pointInPolygon(m, pWithoutRing, boundsWithoutRing)
+		if in == OnEdge {
+			continue
+		} else if in == Outside {
+			return A // This is not a hole.
+		}
+		return -A // This is a hole
+	}
+
 	// All of the points on this ring are on the edge of the polygon. In this
 	// case we check if this ring exactly matches, and therefore cancels out,
 	// any of the other rings.
